@@ -1,0 +1,33 @@
+//go:build verif
+
+// Contracts for the verification machinery in /verif (comment-only file; compiled only with -tags verif).
+package diagnostic
+
+//@ -- C11: a nolint range suppresses exactly the conflicts reported in its file on its lines
+//@ define (covers c r) (and (= (. c position Filename) (. r Filename)) (>= (. c position Line) (. r From)) (<= (. c position Line) (. r To)))
+//@ define (supBy c ranges) (exists ((j Int)) (and (<= 0 j) (< j (len ranges)) (covers c (idx ranges j))))
+//@ define (nolintOf pass) (. (as (mapget pass.ResultOf (global NoLintAnalyzer)) *analysishelper.Result[[]Range]) Res)
+
+//@ -- the predicate handed to slices.ContainsFunc in Diagnostics
+//@ func (*Engine).Diagnostics$2
+//@ prop C11
+//@ ensures range-covers-exactly-its-own-lines (= result (covers c r))
+
+//@ func (*Engine).Diagnostics
+//@ prop C11
+//@ modifies *
+//@ loop 0 invariant only-unsuppressed-kept (forall ((k Int)) (=> (and (<= 0 k) (< k (len conflicts))) (not (supBy (idx conflicts k) nolintRanges))))
+//@ loop 0 invariant ranges-stable (= nolintRanges (nolintOf e.pass))
+
+//@ -- grouping must only ever see conflicts that survived the nolint filter (C11: grouping never hides or
+//@ -- regroups a finding because of a nolint elsewhere)
+//@ func groupConflicts
+//@ prop C11 C13
+//@ requires (forall ((k Int)) (=> (and (<= 0 k) (< k (len allConflicts))) (not (supBy (idx allConflicts k) (nolintOf pass)))))
+//@ assume driver-passes-nonnil-config (not (= (local conf) nil))
+//@ modifies *
+
+//@ -- involvesTestFile only reads the conflict it is given (used through its abstraction; body not verified)
+//@ func involvesTestFile
+//@ pure
+//@ nobody
